@@ -178,8 +178,8 @@ def main():
                         nb = in_child(lambda: run_schedule(pp, pkg, b, a, st, -1)[2]) or 0
                         lines[(ia, ib)] = n
                         ks = list(range(1, n + 1))
-                        if tier == 'quick' and len(ks) > 220:
-                            ks = sorted(rng.sample(ks, 220))
+                        if tier == 'quick' and len(ks) > 160:
+                            ks = sorted(rng.sample(ks, 160))
                         scheds = [(k, None) for k in ks]
                         for _ in range(12 if tier == 'quick' else 150):
                             if n and nb:
